@@ -12,6 +12,7 @@
 #include <linux/futex.h>
 #include <pthread.h>
 #include <sched.h>
+#include <signal.h>
 #include <stdarg.h>
 #include <stdint.h>
 #include <stdio.h>
@@ -250,6 +251,28 @@ static void wake_passed_deadlines()
         if (deadlines[i] > vclock_ns) deadlines[k++] = deadlines[i];
     ndeadlines = k;
 }
+// the harness' stuck callback runs uncontrolled and may block on a lock that a parked thread holds
+// (e.g. asking the runtime for its thread counts): after 3 s the execution is reported as stuck anyway
+static void stuck_cb_alarm(int)
+{
+    in_rt = 1;
+    die(OUT_STUCK, "stuck", "no progress (the harness' diagnostic callback itself blocked)");
+}
+static void run_stuck_cb()
+{
+    if (!stuck_cb) return;
+    struct sigaction sa;
+    memset(&sa, 0, sizeof sa);
+    sa.sa_handler = stuck_cb_alarm;
+    sigaction(SIGALRM, &sa, nullptr);
+    sigset_t ss;
+    sigemptyset(&ss);
+    sigaddset(&ss, SIGALRM);
+    pthread_sigmask(SIG_UNBLOCK, &ss, nullptr);
+    alarm(3);
+    stuck_cb();
+    alarm(0);
+}
 static void global_progress()
 {
     ++epoch;
@@ -265,7 +288,7 @@ static void stuck()
     in_rt = 0;
     ctl = 0;    // callbacks run uncontrolled (they only read state)
     if (getenv("PMC_STUCK_ABORT")) abort();
-    if (stuck_cb) stuck_cb();
+    run_stuck_cb();
     die(OUT_STUCK, "stuck", "no progress: every thread is blocked, idle or spinning");
 }
 // one idle round: nobody could make progress in this round; let virtual time pass
@@ -442,6 +465,10 @@ static void do_yield()
 static void preempt_active()
 {
     R[self].act = 0;
+    // a full quantum of productive work takes time: without this a thread that sleeps for a
+    // microsecond (pika's spinlock back-off) never wakes up while another thread stays busy
+    vclock_ns += (uint64_t) QUANTUM * 25;
+    wake_passed_deadlines();
     int nxt = -1;
     for (int k = 1; k < nrec; ++k)
     {
@@ -522,7 +549,8 @@ static inline Pre pre_op(int kind, const volatile void* a, const void* ra)
     if (++nops > OPS_HORIZON * (X && X->limit_mult > 1 ? X->limit_mult : 1))
     {
         in_rt = 1;
-        if (stuck_cb) { in_rt = 0; ctl = 0; stuck_cb(); in_rt = 1; }
+        if (getenv("PMC_STUCK_ABORT")) abort();
+        if (stuck_cb) { in_rt = 0; ctl = 0; run_stuck_cb(); in_rt = 1; }
         die(OUT_STUCK, "stuck", "horizon: the execution did not finish within the operation horizon (threads keep running without finishing: livelock)");
     }
     if (++ops_since_switch > QUANTUM)
